@@ -1049,7 +1049,7 @@ step_write() {
 		"exit=${_exit}" \
 		"duration=${_duration}" \
 		${_delta:+delta=${_delta}} \
-		${_log:+log=${_log}} \
+		"log=${_log}" \
 		"user=${_user}" \
 		${_time:+time=${_time}} \
 		"skip=${_skip}"
